@@ -289,7 +289,10 @@ def namespace_scenarios():
     def forced_names(ch):
         return sorted(n for n, t in ch.tasks.items() if t.is_forced)
 
-    for how in ('name', 'object', 'generator'):
+    class _StrSub(str):
+        """a name that is a str SUBCLASS (what a config value with a substituted placeholder is)"""
+
+    for how, flags in [(h, {}) for h in ('name', 'object', 'generator', 'strsub')] + [('name', dict(recompute=True, delete_data=dd)) for dd in (False, True)]:
         for via in ('member-first', 'member-second', 'multichain'):
             root = scratch.fresh('c13n')
             w = worlds.World(desc, root)
@@ -305,13 +308,30 @@ def namespace_scenarios():
                 nm = {'member-first': 'a::d', 'member-second': 'b::d', 'multichain': 'd'}[via]
                 if how == 'name':
                     arg = nm
+                elif how == 'strsub':
+                    arg = _StrSub(nm)
                 elif how == 'object':
                     if via == 'multichain':
                         continue   # a task object belongs to one member's graph
                     arg = (ca if via == 'member-first' else cb)[nm]
                 else:
                     arg = (x for x in [nm])
-                target.force(arg)
+                before = runs(w)
+                target.force(arg, **flags)
+                if flags:
+                    # recompute=True: every forced task recomputed exactly once - the shared d and m ONCE, not once per member
+                    after = runs(w)
+                    delta = {k: after.get(k, 0) - before.get(k, 0) for k in after if after.get(k, 0) != before.get(k, 0)}
+                    want = {'D': 1, 'M': 1, 'T': 2 if via == 'multichain' else 1}
+                    if delta != want:
+                        out.append(('forcing with recompute=True does not recompute every forced task exactly once',
+                                    f'force({nm!r}, {flags}) via {via}: runs {delta}, expected {want}'))
+                    # ... and the recomputed results are the stored ones: fresh chains load them, nothing runs
+                    mc2 = MultiChain([w.make_config('v', base_dir=root + '/data', root=r) for r in ('ma', 'mb')])
+                    vals = [(m, n, mc2[m][n].has_data) for m, n in (('ma', 'a::d'), ('ma', 'a::t'), ('mb', 'b::t'))]
+                    if not all(v[2] for v in vals):
+                        out.append(('forcing with recompute=True leaves a forced task without stored result', f'force({nm!r}, {flags}) via {via}: {vals}'))
+                    continue
                 fa, fb = forced_names(ca), forced_names(cb)
                 # d and m are one shared object each, t differs between the members (pt): forcing d through the MultiChain marks d, m, t in
                 # every member; through one member it marks that member's three tasks (the shared d, m show as forced in the other one too)
